@@ -302,6 +302,12 @@ enum TState {
     BlockedRecv(ChanId),
     BlockedSend(ChanId),
     BlockedJoin(TaskId),
+    /// waiting for a simulated Mutex / RwLock
+    BlockedLock(usize),
+    /// waiting on a simulated Condvar (optional deadline on the simulated clock)
+    BlockedCond(usize, Option<u64>),
+    /// sleeping until a deadline (recv_timeout and friends)
+    BlockedUntil(u64),
     Finished,
 }
 
@@ -315,6 +321,14 @@ struct Task {
     priority: u64,
     stalled_until: u64,
     rng_calls: u64,
+    /// set when a timed wait ended by its deadline
+    timed_out: bool,
+}
+
+#[derive(Default)]
+struct LockState {
+    writer: Option<TaskId>,
+    readers: usize,
 }
 
 struct Chan {
@@ -338,6 +352,10 @@ struct Sched {
     cfg: Config,
     tasks: Vec<Task>,
     chans: Vec<Chan>,
+    /// simulated locks and condition variables, registered by address at first use
+    locks: Vec<LockState>,
+    lock_ids: Vec<(usize, usize)>,
+    cond_ids: Vec<(usize, usize)>,
     current: TaskId,
     step: u64,
     clock_ns: u64,
@@ -695,6 +713,9 @@ impl Sched {
                 }
                 TState::BlockedSend(c) => format!("blocked in send(chan#{} full)", c),
                 TState::BlockedJoin(t) => format!("blocked in join(task {})", t),
+                TState::BlockedLock(l) => format!("blocked on lock#{} (held by {:?}, {} readers)", l, self.locks[*l].writer, self.locks[*l].readers),
+                TState::BlockedCond(c, d) => format!("waiting on condvar#{}{}", c, if d.is_some() { " (timed)" } else { "" }),
+                TState::BlockedUntil(d) => format!("sleeping until {} ns", d),
             };
             if !s.is_empty() {
                 s.push_str("; ");
@@ -719,7 +740,60 @@ impl Sched {
             priority,
             stalled_until: 0,
             rng_calls: 0,
+            timed_out: false,
         });
+        id
+    }
+
+    fn deadline_of(t: &Task) -> Option<u64> {
+        match t.state {
+            TState::BlockedCond(_, Some(d)) | TState::BlockedUntil(d) => Some(d),
+            _ => None,
+        }
+    }
+
+    /// timed waits whose deadline has passed become runnable (timed out)
+    fn wake_expired(&mut self) {
+        let now = self.clock_ns;
+        for t in self.tasks.iter_mut() {
+            if let Some(d) = Sched::deadline_of(t) {
+                if d <= now {
+                    t.state = TState::Runnable;
+                    t.timed_out = true;
+                }
+            }
+        }
+    }
+
+    /// nothing is runnable: jump the clock to the earliest deadline, if there is one
+    fn jump_to_next_deadline(&mut self) -> bool {
+        let d = self.tasks.iter().filter_map(Sched::deadline_of).min();
+        match d {
+            Some(d) => {
+                self.clock_ns = self.clock_ns.max(d);
+                self.wake_expired();
+                true
+            }
+            None => false,
+        }
+    }
+
+    fn lock_id(&mut self, addr: usize) -> usize {
+        if let Some((_, id)) = self.lock_ids.iter().find(|(a, _)| *a == addr) {
+            return *id;
+        }
+        let id = self.locks.len();
+        self.locks.push(LockState::default());
+        self.lock_ids.push((addr, id));
+        id
+    }
+
+    fn cond_id(&mut self, addr: usize) -> usize {
+        if let Some((_, id)) = self.cond_ids.iter().find(|(a, _)| *a == addr) {
+            return *id;
+        }
+        let id = self.cond_ids.len();
+        self.cond_ids.push((addr, id));
         id
     }
 
@@ -777,7 +851,11 @@ fn reschedule<'a>(sh: &'a Shared, mut g: MutexGuard<'a, Sched>, me: TaskId) -> M
         drop(g);
         unwind_abort();
     }
-    let cands = g.runnable();
+    g.wake_expired();
+    let mut cands = g.runnable();
+    if cands.is_empty() && g.jump_to_next_deadline() {
+        cands = g.runnable();
+    }
     if cands.is_empty() {
         let msg = g.describe_blocked();
         g.aborted = Some(Abort::Deadlock(msg));
@@ -968,7 +1046,11 @@ fn task_main<T: Send + 'static>(
     // hand the baton on
     g.step += 1;
     g.advance_clock();
-    let cands = g.runnable();
+    g.wake_expired();
+    let mut cands = g.runnable();
+    if cands.is_empty() && g.jump_to_next_deadline() {
+        cands = g.runnable();
+    }
     if cands.is_empty() {
         let msg = g.describe_blocked();
         g.aborted = Some(Abort::Deadlock(msg));
@@ -1286,6 +1368,147 @@ pub(crate) fn chan_receiver_drop(sh: &Arc<Shared>, chan: ChanId) {
 }
 
 // ---------------------------------------------------------------------------
+// Locks, condition variables, timed waits
+// ---------------------------------------------------------------------------
+
+/// Acquire a simulated lock (exclusive or shared); a yield point. Returns the lock id, or
+/// None when the simulation is being torn down (the caller then just takes the real lock).
+pub(crate) fn sim_lock(sh: &Arc<Shared>, me: TaskId, addr: usize, shared: bool, try_only: bool) -> Result<Option<usize>, ()> {
+    let mut g = sh.lock();
+    g = reschedule(sh, g, me);
+    loop {
+        if g.aborted.is_some() {
+            return Ok(None);
+        }
+        let id = g.lock_id(addr);
+        let free = if shared { g.locks[id].writer.is_none() } else { g.locks[id].writer.is_none() && g.locks[id].readers == 0 };
+        if free {
+            if shared {
+                g.locks[id].readers += 1;
+            } else {
+                g.locks[id].writer = Some(me);
+            }
+            g.log(me, Ev::User { tag: "lock", vals: vec![id as i64, i64::from(shared)] });
+            return Ok(Some(id));
+        }
+        if try_only {
+            g.log(me, Ev::User { tag: "try-lock-busy", vals: vec![id as i64] });
+            return Err(());
+        }
+        g.tasks[me].state = TState::BlockedLock(id);
+        g = reschedule(sh, g, me);
+        g.tasks[me].state = TState::Runnable;
+    }
+}
+
+/// Release a simulated lock (never a yield point: runs in Drop).
+pub(crate) fn sim_unlock(sh: &Arc<Shared>, id: usize, shared: bool) {
+    let me = current().filter(|x| Arc::ptr_eq(&x.0, sh)).map(|x| x.1);
+    let mut g = sh.lock();
+    if shared {
+        g.locks[id].readers = g.locks[id].readers.saturating_sub(1);
+    } else {
+        g.locks[id].writer = None;
+    }
+    if let Some(me) = me {
+        g.log(me, Ev::User { tag: "unlock", vals: vec![id as i64, i64::from(shared)] });
+    }
+    for t in g.tasks.iter_mut() {
+        if t.state == TState::BlockedLock(id) {
+            t.state = TState::Runnable;
+        }
+    }
+}
+
+/// Wait on a condition variable: atomically release lock `lock_id`, block until notified
+/// (or until `timeout_ns` of simulated time), re-acquire. Returns true if it timed out.
+pub(crate) fn sim_cond_wait(sh: &Arc<Shared>, me: TaskId, cond_addr: usize, lock_id: usize, timeout_ns: Option<u64>) -> bool {
+    let mut g = sh.lock();
+    let cid = g.cond_id(cond_addr);
+    // release the mutex
+    g.locks[lock_id].writer = None;
+    for t in g.tasks.iter_mut() {
+        if t.state == TState::BlockedLock(lock_id) {
+            t.state = TState::Runnable;
+        }
+    }
+    let deadline = timeout_ns.map(|d| g.clock_ns.saturating_add(d));
+    g.log(me, Ev::User { tag: "cond-wait", vals: vec![cid as i64, lock_id as i64] });
+    g.tasks[me].timed_out = false;
+    g.tasks[me].state = TState::BlockedCond(cid, deadline);
+    g = reschedule(sh, g, me);
+    let timed_out = g.tasks[me].timed_out;
+    g.tasks[me].timed_out = false;
+    g.tasks[me].state = TState::Runnable;
+    // re-acquire
+    loop {
+        if g.aborted.is_some() {
+            return timed_out;
+        }
+        if g.locks[lock_id].writer.is_none() && g.locks[lock_id].readers == 0 {
+            g.locks[lock_id].writer = Some(me);
+            return timed_out;
+        }
+        g.tasks[me].state = TState::BlockedLock(lock_id);
+        g = reschedule(sh, g, me);
+        g.tasks[me].state = TState::Runnable;
+    }
+}
+
+pub(crate) fn sim_cond_notify(sh: &Arc<Shared>, me: TaskId, cond_addr: usize, all: bool) {
+    let mut g = sh.lock();
+    g = reschedule(sh, g, me);
+    let cid = g.cond_id(cond_addr);
+    g.log(me, Ev::User { tag: "cond-notify", vals: vec![cid as i64, i64::from(all)] });
+    let waiters: Vec<TaskId> = g.tasks.iter().enumerate().filter(|(_, t)| matches!(t.state, TState::BlockedCond(c, _) if c == cid)).map(|(i, _)| i).collect();
+    if waiters.is_empty() {
+        return;
+    }
+    if all {
+        for w in waiters {
+            g.tasks[w].state = TState::Runnable;
+        }
+    } else {
+        // which waiter wakes is the simulator's choice
+        let k = if g.cfg.replay.is_some() { 0 } else { g.sched_rng.below(waiters.len() as u64) as usize };
+        g.tasks[waiters[k]].state = TState::Runnable;
+    }
+}
+
+/// Block the caller until the simulated clock reaches now + ns, unless `until` tasks make it
+/// runnable earlier (used by recv_timeout). Returns true if the deadline was reached.
+pub(crate) fn sim_sleep_until(sh: &Arc<Shared>, me: TaskId, ns: u64) {
+    let mut g = sh.lock();
+    let d = g.clock_ns.saturating_add(ns);
+    g.log(me, Ev::Sleep { ns });
+    g.tasks[me].state = TState::BlockedUntil(d);
+    g = reschedule(sh, g, me);
+    g.tasks[me].state = TState::Runnable;
+    g.tasks[me].timed_out = false;
+}
+
+/// Wait (at simulation level) until `target` has finished; no result is taken.
+pub(crate) fn sim_wait_finished(sh: &Arc<Shared>, me: TaskId, target: TaskId) {
+    let mut g = sh.lock();
+    g = reschedule(sh, g, me);
+    loop {
+        if g.aborted.is_some() || g.tasks[target].state == TState::Finished {
+            return;
+        }
+        g.tasks[me].state = TState::BlockedJoin(target);
+        g = reschedule(sh, g, me);
+        g.tasks[me].state = TState::Runnable;
+    }
+}
+
+/// A plain yield point for shim operations that have no other effect (atomics, hints).
+pub(crate) fn yield_if_sim(tag: &'static str) {
+    if let Some((sh, me)) = current() {
+        yield_point(&sh, me, Ev::User { tag, vals: Vec::new() });
+    }
+}
+
+// ---------------------------------------------------------------------------
 // Clock / entropy / misc seams
 // ---------------------------------------------------------------------------
 
@@ -1333,6 +1556,9 @@ pub fn run<T>(cfg: Config, root: impl FnOnce() -> T) -> Outcome<T> {
         cfg,
         tasks: Vec::new(),
         chans: Vec::new(),
+        locks: Vec::new(),
+        lock_ids: Vec::new(),
+        cond_ids: Vec::new(),
         current: 0,
         step: 0,
         clock_ns: 1_000_000_000,
